@@ -266,11 +266,12 @@ type rawObj struct {
 	Min   string
 	Max   string
 	Count int
+	Size  int64
 }
 
 // listObjects runs the :objects meta query of a revision.
 func (r *Real) listObjects(rev string) ([]rawObj, error) {
-	out, err := r.L.Query(fmt.Sprintf("from %s@%s:objects | yield {id:ksuid(id),min:min,max:max,count:count}", r.PoolN, rev))
+	out, err := r.L.Query(fmt.Sprintf("from %s@%s:objects | yield {id:ksuid(id),min:min,max:max,count:count,size:size}", r.PoolN, rev))
 	if err != nil {
 		return nil, err
 	}
@@ -294,7 +295,7 @@ func (r *Real) listObjects(rev string) ([]rawObj, error) {
 		if err != nil {
 			return nil, err
 		}
-		res = append(res, rawObj{K: k, Min: mn, Max: mx, Count: int(v.Deref("count").Uint())})
+		res = append(res, rawObj{K: k, Min: mn, Max: mx, Count: int(v.Deref("count").Uint()), Size: v.Deref("size").Int()})
 	}
 	return res, nil
 }
@@ -384,7 +385,7 @@ func (r *Real) Observe(commits bool) (*StepObs, error) {
 		}
 		for _, ro := range perBranch[b] {
 			a := r.ObjA[ro.K]
-			oo := ObjObs{ID: a, Min: ro.Min, Max: ro.Max, Count: ro.Count, Vec: vecs[ro.K.String()]}
+			oo := ObjObs{ID: a, Min: ro.Min, Max: ro.Max, Count: ro.Count, Vec: vecs[ro.K.String()], Size: ro.Size}
 			toks, err := r.readFile(pool, ro.K)
 			if err != nil {
 				if ErrClass(err) != "missing-file" {
